@@ -257,6 +257,131 @@ pub fn dispatch(op: &str, a: &[Arg]) -> Option<String> {
                 if strip(&x) == strip(&y) { format!("[SAME {}]", strip(&x)) } else { format!("[DIFF {} {}]", x, y) }
             }
         }
+        // faultread x<data> k haspw x<pw>: open + read every entry over a source whose k-th I/O call (read or seek,
+        // counted from 0) fails; k beyond the run = failure-free.  -> [calls-made open-result [entry results]]
+        "faultread" => {
+            struct FaultSrc {
+                inner: Cursor<Vec<u8>>,
+                n: std::rc::Rc<std::cell::Cell<u64>>,
+                fail_at: u64,
+            }
+            impl FaultSrc {
+                fn tick(&self) -> std::io::Result<()> {
+                    let c = self.n.get();
+                    self.n.set(c + 1);
+                    if c == self.fail_at {
+                        Err(std::io::Error::new(std::io::ErrorKind::Other, "injected"))
+                    } else {
+                        Ok(())
+                    }
+                }
+            }
+            impl Read for FaultSrc {
+                fn read(&mut self, b: &mut [u8]) -> std::io::Result<usize> {
+                    self.tick()?;
+                    self.inner.read(b)
+                }
+            }
+            impl std::io::Seek for FaultSrc {
+                fn seek(&mut self, p: std::io::SeekFrom) -> std::io::Result<u64> {
+                    self.tick()?;
+                    self.inner.seek(p)
+                }
+            }
+            let n = std::rc::Rc::new(std::cell::Cell::new(0u64));
+            let src = FaultSrc { inner: Cursor::new(a[0].b().to_vec()), n: n.clone(), fail_at: a[1].n() as u64 };
+            let mut outs = vec![];
+            let open = match ZipArchive::new(src) {
+                Err(e) => format!("[Err {}]", err_obs(&e)),
+                Ok(mut ar) => {
+                    for i in 0..ar.len() {
+                        let r = if a[2].n() == 0 { ar.by_index(i).map(Ok) } else { ar.by_index_decrypt(i, a[3].b()) };
+                        outs.push(match r {
+                            Err(e) => format!("[Err {}]", err_obs(&e)),
+                            Ok(Err(_)) => "InvalidPassword".to_string(),
+                            Ok(Ok(mut f)) => {
+                                let nm = ob(f.name().as_bytes());
+                                let mut v = vec![];
+                                match f.read_to_end(&mut v) {
+                                    Ok(_) => format!("[Ok {} {}]", nm, ob(&v)),
+                                    Err(e) => format!("[ReadErr {} {}]", nm, io_obs(&e)),
+                                }
+                            }
+                        });
+                    }
+                    format!("[Ok {} {}]", on(ar.len() as u64), ob(ar.comment()))
+                }
+            };
+            format!("[{} {} {}]", on(n.get()), open, ol(&outs))
+        }
+        // faultappend x<base> k: new_append + one stored entry + finish over a device whose k-th I/O call fails
+        "faultappend" => {
+            use std::io::Write;
+            struct Dev {
+                inner: std::rc::Rc<std::cell::RefCell<Cursor<Vec<u8>>>>,
+                n: std::rc::Rc<std::cell::Cell<u64>>,
+                fail_at: u64,
+            }
+            impl Dev {
+                fn tick(&self) -> std::io::Result<()> {
+                    let c = self.n.get();
+                    self.n.set(c + 1);
+                    if c == self.fail_at {
+                        Err(std::io::Error::new(std::io::ErrorKind::Other, "injected"))
+                    } else {
+                        Ok(())
+                    }
+                }
+            }
+            impl Read for Dev {
+                fn read(&mut self, b: &mut [u8]) -> std::io::Result<usize> {
+                    self.tick()?;
+                    self.inner.borrow_mut().read(b)
+                }
+            }
+            impl Write for Dev {
+                fn write(&mut self, b: &[u8]) -> std::io::Result<usize> {
+                    self.tick()?;
+                    self.inner.borrow_mut().write(b)
+                }
+                fn flush(&mut self) -> std::io::Result<()> {
+                    self.tick()
+                }
+            }
+            impl std::io::Seek for Dev {
+                fn seek(&mut self, p: std::io::SeekFrom) -> std::io::Result<u64> {
+                    self.tick()?;
+                    self.inner.borrow_mut().seek(p)
+                }
+            }
+            let n = std::rc::Rc::new(std::cell::Cell::new(0u64));
+            let buf = std::rc::Rc::new(std::cell::RefCell::new(Cursor::new(a[0].b().to_vec())));
+            let dev = Dev { inner: buf.clone(), n: n.clone(), fail_at: a[1].n() as u64 };
+            let mut outs = vec![];
+            match zip::ZipWriter::new_append(dev) {
+                Err(e) => outs.push(format!("[Err {}]", err_obs(&e))),
+                Ok(mut w) => {
+                    outs.push("[Ok unit]".to_string());
+                    let o = zip::write::FileOptions::default()
+                        .compression_method(zip::CompressionMethod::Stored)
+                        .last_modified_time(zip::DateTime::default());
+                    outs.push(match w.start_file("appended", o) {
+                        Ok(()) => "[Ok unit]".into(),
+                        Err(e) => format!("[Err {}]", err_obs(&e)),
+                    });
+                    outs.push(match w.write_all(b"appended data") {
+                        Ok(()) => "[Ok unit]".into(),
+                        Err(e) => format!("[Err {}]", io_obs(&e)),
+                    });
+                    outs.push(match w.finish() {
+                        Ok(_) => "[Ok unit]".into(),
+                        Err(e) => format!("[Err {}]", err_obs(&e)),
+                    });
+                }
+            }
+            let fin = ob(buf.borrow().get_ref());
+            format!("[{} {} {}]", on(n.get()), ol(&outs), fin)
+        }
         // rawlist x<data>: every entry through by_index_raw: accessors + undecoded bytes
         "rawlist" => {
             let mut ar = match ZipArchive::new(Cursor::new(a[0].b().to_vec())) {
